@@ -1,6 +1,6 @@
 """C14 — elementary components realise their documented matrices for all parameter values.
 
-Five correspondence streams, each run on the REAL classes (`BS`, `PS`, `WP`, `HWP`, `QWP`, `PR`, `PERM`,
+Eight correspondence streams, each run on the REAL classes (`BS`, `PS`, `WP`, `HWP`, `QWP`, `PR`, `PERM`,
 `Parameter`, `Expression`) and on the Lean model (`Model/C14.lean` through `Driver/C14.lean`):
 
 * matrix — every component/convention at rational-trigonometric points (Pythagorean-triple cos/sin,
@@ -35,8 +35,26 @@ Five correspondence streams, each run on the REAL classes (`BS`, `PS`, `WP`, `HW
   of them, and the property itself is decided by the direct oracle (accepted value inside the bounds, fixed
   parameters unchanged, numeric matrix = documented matrix at the values REQUESTED for the parameters).
 
+* xsess — Expression objects and the symbolic branch (`Model/C14Expr.lean`, `Model/C14Sym.lean`): histories on raw
+  parameters and `Expression` objects built with the overloaded operators, from text (`Expression("sin(a)+b**-2", …)`:
+  + - * / ** with positive and negative integer exponents, unary minus, sin cos exp sqrt acos, pi), from other
+  Expression objects (`e1*e2`, `e1+b`, `-e1`, `e1**-2`) and by `BS.r_to_theta`; components BS (3 conventions), PS, WP,
+  HWP, QWP, PR whose slots hold numbers, the sympy default, raw parameters (free / valued / fixed) or Expression objects
+  (one object in several slots and components); `set_value` / `fix_value` / `reset` on raw parameters AND on
+  Expression objects (directly and through `component.assign`).  After every call: exception class, every parameter,
+  every Expression object (`_min`, `_max`, `_periodic`, `_symbol`, `_value`, `defined`), every slot read `float()`, the
+  numeric matrix and the symbolic matrix evaluated at the current values; at the end the free symbols of the symbolic
+  matrix and its value at two points (inside and far outside the nominal ranges), `.U` on tame expressions.  The model
+  evaluates the functions through a table of `math.*` values that the harness supplies on request (they are external
+  numerics).  A deterministic sweep covers every leaf kind × every kind of slot content.  `PBS` (stream pbs): numeric,
+  symbolic, `.U`, `definition()` against the model's matrix.
+* pserr — `PS(phi, max_error != 0)`: stored amplitude against the model's wrap into [0, pi]; every draw of the numeric
+  and symbolic matrix is a unit phase within `max_error` of `phi` (the draw itself is external).
+
 Direct oracles (independent of the Lean driver) used to classify a disagreement: the documentation's
-formulas written in numpy/cmath, `lo <= stored <= hi and stored ≡ requested (mod span)`, `U e_k = e_{l[k]}`.
+formulas written in numpy/cmath, `lo <= stored <= hi and stored ≡ requested (mod span)`, `U e_k = e_{l[k]}`; for Expression objects that were not given a
+value: the slot reads the expression evaluated in plain Python floats at the current values of the raw parameters, and
+both matrices are the documented matrix at the values the slots read.
 """
 from __future__ import annotations
 
@@ -574,7 +592,7 @@ def observe_expr(case):
 
 OBSERVERS = {"matrix": observe_matrix, "wrap": observe_wrap, "perm": observe_perm, "expr": observe_expr,
              "life": lambda case: observe_life(case), "xsess": lambda case: observe_xsess(case),
-             "pbs": lambda case: observe_pbs(case)}
+             "pbs": lambda case: observe_pbs(case), "pserr": lambda case: observe_pserr(case)}
 
 
 def observe(item):
@@ -1334,7 +1352,9 @@ def life_lean_req(case):
                 slots.append(d)
             ops.append({"k": "mk", "c": op["c"], "slots": slots})
         elif k == "assign":
-            ops.append({"k": "assign", "c": op["c"], "kv": [[n, r(v)] for n, v in op["kv"]]})
+            # (`BS._compute_unitary` never looks at `assign`: the model leaves the store alone, "fwd": false)
+            fwd = not (op.get("via") == "compute" and life_kind(case, op["c"]) == "BS")
+            ops.append({"k": "assign", "c": op["c"], "kv": [[n, r(v)] for n, v in op["kv"]], "fwd": fwd})
         else:
             ops.append({"k": k, "c": op["c"]})
     return {"op": "life", "ops": ops}
@@ -1444,6 +1464,13 @@ def life_oracle(case, obs):
             for a in comp_args[op["c"]][2].values():
                 if "ref" in a and a["ref"] in requested and snp["params"][a["ref"]][4] is not None:
                     requested[a["ref"]] = snp["params"][a["ref"]][4]
+        elif k == "assign" and op.get("via") == "compute" and life_kind(case, op["c"]) == "BS":
+            # ignored by BS (code as it is): nothing was requested and the matrices stay where they were; should a
+            # tree forward it (as the other leaves do), a parameter that moved was requested at the given value
+            prev = obs["snaps"][i - 1]["params"] if i else {}
+            for n, v in op["kv"]:
+                if n in snp["params"] and n in prev and prev[n][4] != snp["params"][n][4]:
+                    requested[n] = v
         elif k == "assign":
             prev = obs["snaps"][i - 1]["params"] if i else {}
             for n, v in op["kv"]:
@@ -1620,7 +1647,7 @@ def gen_life_case(rng, force_shared=None):
                 kv.append([nm, life_value(rng, *b)])
             kv = list({k: [k, v] for k, v in kv}.values())      # (a dict: one entry per key)
             ops.append({"k": "assign", "c": cid, "kv": kv,
-                        "via": "compute" if kind != "BS" and rng.random() < 0.3 else "assign"})
+                        "via": "compute" if rng.random() < 0.3 else "assign"})
         elif r < 0.90 and comps:
             ops.append({"k": "resetall", "c": rng.choice(comps)[0]})
         elif r < 0.97 and comps:
@@ -1679,6 +1706,15 @@ def life_sweep_cases():
                         {"k": "assign", "c": "c0", "kv": [["a", PI / 2 + 5e-7], ["b", 5e-7]], "via": "assign"},
                         {"k": "assign", "c": "c0", "kv": [["a", PI / 2 + 2e-6], ["b", 2e-6]], "via": "assign"},
                         {"k": "copy", "c": "c0"}, {"k": "resetall", "c": "c0"}, {"k": "copy", "c": "c0"}], "tag": "assign"})
+    # compute_unitary(assign=...): forwarded to assign() by PS / WP / PR, ignored by BS (also an unknown key and a value
+    # that set_value would refuse pass silently there)
+    out.append({"ops": [new("a"), new("n", None, 0.0, 1.0, False), mk("c0", "BS", {"theta": ref("a"), "phi_tl": ref("n")}, "Rx"),
+                        mk("c1", "PS", {"phi": ref("a")}), st("a", 1.0), st("n", 0.5),
+                        {"k": "assign", "c": "c0", "kv": [["a", 2.0]], "via": "compute"},
+                        {"k": "assign", "c": "c0", "kv": [["zz", 2.0], ["n", 7.0]], "via": "compute"},
+                        {"k": "assign", "c": "c1", "kv": [["a", 2.5]], "via": "compute"},
+                        {"k": "assign", "c": "c1", "kv": [["zz", 2.0]], "via": "compute"},
+                        {"k": "assign", "c": "c0", "kv": [["a", 3.0], ["n", 7.0]], "via": "assign"}], "tag": "assign"})
     # a stale value of a non periodic (shared) parameter: copy() raises on the repaired code, wraps on the pinned one
     out.append({"ops": [new("q"), st("q", 9.0), mk("c0", "BS", {"theta": ref("q"), "phi_tl": ref("q")}, "H"),
                         {"k": "copy", "c": "c0"}, st("q", 1.0), {"k": "copy", "c": "c0"}], "tag": "lifecycle"})
@@ -2297,7 +2333,7 @@ def judge_xsess(case, obs, reps):
             # matrices: DIRECT ORACLE (documented matrix at the values the slots read), then the model
             doc = doc_matrix(kind, conv, vals)
             vmax = max([abs(x) for x in vals.values()] + [0.0])
-            smax = max(list(scales.values()) + [0.0])
+            smax = min(max(list(scales.values()) + [0.0]), 1e9)      # (finite: an edge of acos / sqrt has an infinite scale)
             tol = 1e-8 + 2e-15 * max(vmax, smax)
             for key, which in (("num", "numeric"), ("sym", "symbolic")):
                 got = d[key]
@@ -2366,7 +2402,7 @@ def judge_xsess(case, obs, reps):
                         ok = False
                     else:
                         v, scale, well, why = xeval_info(asts[oid], pt)
-                        smax = max(smax, scale)
+                        smax = min(max(smax, scale), 1e9)
                         if v is None or not well:
                             ok = False
                         else:
@@ -2738,6 +2774,74 @@ def xsess_sweep_cases():
 
 
 # ------------------------------------------------------------------------------------------------
+# pserr stream: PS(phi, max_error != 0) — the draw is external; the matrix stays in the documented family
+# ------------------------------------------------------------------------------------------------
+def observe_pserr(case):
+    import perceval as pcvl
+    from perceval.components import PS
+    out = {}
+    try:
+        if case["mhow"] == "param":
+            mp_ = pcvl.P("err")
+            c = PS(case["phi"], max_error=mp_)
+            mp_.set_value(case["m"])
+        else:
+            c = PS(case["phi"], max_error=case["m"])
+        q = c.param("max_error")
+        out["m"] = float(q)
+        out["phi"] = float(c.param("phi"))
+        out["bounds"] = [q.min, q.max, bool(q.is_periodic)]
+        out["num"] = [complex(np.array(c.compute_unitary(use_symbolic=False), dtype=complex)[0, 0])
+                      for _ in range(case["n"])]
+        out["sym"] = [complex(sym_np(c.compute_unitary(use_symbolic=True))[0][0]) for _ in range(case["n"])]
+        out["shown"] = "max_error" in c.get_variables()
+    except Exception as e:  # noqa: BLE001
+        out["err"] = type(e).__name__ + ": " + str(e)[:150]
+    return out
+
+
+def judge_pserr(case, obs, reps):
+    if any("err" in r for r in reps):
+        return [("broken", "lean-driver", f"wrap request rejected: {reps}")]
+    if "err" in obs:
+        return [("violation", "pserr-raises", f"PS({case['phi']!r}, max_error={case['m']!r}): {obs['err']}")]
+    fails = []
+    if obs["bounds"] != [0.0, PI, True]:
+        fails.append(("broken", "declared-bounds:max_error", f"max_error has bounds {obs['bounds']}"))
+    fails += judge_stored(obs["m"], None, 0.0, PI, True, case["m"], reps[0], "PS.max_error")
+    fails += judge_stored(obs["phi"], None, 0.0, TWO_PI, True, case["phi"], reps[1], "PS.phi")
+    m, phi = obs["m"], case["phi"]
+    for key, which in (("num", "numeric"), ("sym", "symbolic")):
+        for u in obs[key]:
+            if abs(abs(u) - 1) > 1e-9:
+                fails.append(("violation", f"pserr-not-unitary:{which}",
+                              f"PS({phi!r}, max_error={case['m']!r}): {which} entry {u!r} has modulus {abs(u)!r}"))
+                return fails
+            delta = cmath.phase(u * cmath.exp(-1j * phi))
+            if abs(delta) > m + 1e-9:
+                fails.append(("violation", f"pserr-outside-family:{which}",
+                              f"PS({phi!r}, max_error={case['m']!r}) (stored amplitude {m!r}): the {which} matrix is the "
+                              f"phase shifter at phi{delta:+.6g}, further than max_error from phi"))
+                return fails
+    if obs["shown"] != (m != 0):
+        fails.append(("broken", "pserr-get-variables", f"get_variables shows max_error: {obs['shown']} for amplitude {m!r}"))
+    return fails
+
+
+def gen_pserr_case(rng):
+    r = rng.random()
+    if r < 0.6:
+        m = rng.uniform(0.0, 1.0) * rng.choice([1e-3, 0.05, 0.3, 1.0])
+    elif r < 0.8:
+        m = rng.uniform(0.0, PI)
+    else:
+        m = rng.uniform(PI, 12.0)         # wrapped into [0, pi] (the slot is declared periodic)
+    lo, hi = 0.0, TWO_PI
+    phi = rng.uniform(lo, hi) if rng.random() < 0.5 else lo + rng.uniform(-20, 21) * (hi - lo)
+    return {"phi": phi, "m": m, "mhow": rng.choice(["num", "param"]), "n": 6}
+
+
+# ------------------------------------------------------------------------------------------------
 # one case end-to-end (used by replay, corpus, shrinking)
 # ------------------------------------------------------------------------------------------------
 def lean_reqs(stream, case, obs):
@@ -2751,6 +2855,8 @@ def lean_reqs(stream, case, obs):
         return [life_lean_req(case)], None
     if stream == "pbs":
         return [{"op": "pbs"}], None
+    if stream == "pserr":
+        return [wrap_req(0.0, PI, True, case["m"]), wrap_req(0.0, TWO_PI, True, case["phi"])], None
     if stream == "xsess":
         return [], None         # (asked in rounds: `xsess_ask`)
     if obs.get("degenerate") or "err" in obs:
@@ -2773,6 +2879,8 @@ def judge(stream, case, obs, reps, index=None):
         return judge_xsess(case, obs, reps)
     if stream == "pbs":
         return judge_pbs(case, obs, reps)
+    if stream == "pserr":
+        return judge_pserr(case, obs, reps)
     return judge_expr(case, obs, reps, index)
 
 
@@ -3008,6 +3116,11 @@ def record_case(chk, stream, case, obs):
     elif stream == "pbs":
         chk.branch("sym:PBS")
         chk.case(("PBS",), True, None)
+    elif stream == "pserr":
+        chk.branch("pserr:" + case["mhow"])
+        if case["m"] > PI:
+            chk.branch("pserr:amplitude-wrapped")
+        chk.case(("N", case["phi"], case["m"], case["mhow"]), case["m"] > 0, None)
     elif stream == "xsess":
         record_xsess(chk, case, obs)
     elif stream == "life":
@@ -3044,6 +3157,8 @@ def record_case(chk, stream, case, obs):
                 chk.branch("life-copy")
             if o["k"] == "assign":
                 chk.branch("life-assign")
+                if o.get("via") == "compute":
+                    chk.branch("life-compute-assign:" + ("BS-ignored" if life_kind(case, o["c"]) == "BS" else "forwarded"))
                 if isinstance(res, str) and o["kv"] and o["kv"][0][0] in snp["params"]:
                     chk.branch("life-assign-partial")
             if o["k"] == "mk" and res is None:
@@ -3248,10 +3363,22 @@ def setup(chk):
                 "(entry point, bounds, value), non-trivial = value outside the interval; perm stream: the list, "
                 "non-trivial = not the identity; expr stream: (bound expressions, history length), non-trivial = "
                 "an expression of nesting >= 2 with >= 2 set_value calls; life stream: the whole history of calls, "
-                "non-trivial = >= 4 operations with at least one component built")
+                "non-trivial = >= 4 operations with at least one component built; xsess stream: the whole history, "
+                "non-trivial = at least one Expression object and >= 2 value-setting calls; pserr stream: (phi, "
+                "max_error, how the amplitude is given), non-trivial = amplitude > 0")
     chk.assumptions = [
         "math.cos/math.sin/cmath.exp and sympy's numeric evaluation are trusted to 1e-12 (external numerics)",
-        "PS.max_error = 0 (the random phase error is not part of the property)",
+        "PS.max_error = 0 in every stream but pserr; there the random draw is external: only 'unit phase within "
+        "max_error of phi' is checked, per draw",
+        "xsess stream: sin/cos/exp/sqrt/acos are external (math.* values handed to the model on request); reads are "
+        "compared with tolerance 1e-9*(1+|value|+S), S the absolute scale of the expression; values within 1e-6 of "
+        "an edge of the real domain of sqrt/acos, ill-conditioned divisors, and inputs where sympy's automatic "
+        "simplification made the expression more defined than the model (a cancelled division) are not compared; "
+        "two Expression objects with the same sympy-normalised name are never put in one case (the constructor "
+        "refuses them in one component); `.U` (sympy simplify) only on tame expressions and bounded to 6 s",
+        "xsess stream: set_value / fix_value on an Expression OBJECT is modelled as the code does it (a constant "
+        "override until reset) and compared with the model only; the direct oracle 'slot = expression at the "
+        "current values' applies to objects that were not given a value",
         "matrix / expr streams: a named parameter is bound directly only to slots with the same declared range; "
         "parameters shared between slots of different ranges are covered by the life stream",
         "life stream, direct oracle on matrices: only for parameters whose periodicity was not declared by the user "
@@ -3271,7 +3398,9 @@ def setup(chk):
                                  "long-operand:" + f for f in ("mul", "rmul", "add", "radd", "sub", "rsub", "div", "pow")] + [
                                  "life-shared-different-range", "life-shared-same-range", "life-set-wrapped",
                                  "life-force", "life-fix", "life-reset", "life-copy", "life-assign",
-                                 "life-assign-partial", "life-stale-value", "life-getvars-default-hidden"] + [
+                                 "life-assign-partial", "life-stale-value", "life-getvars-default-hidden",
+                                 "life-compute-assign:BS-ignored", "life-compute-assign:forwarded", "pserr:num",
+                                 "pserr:param", "pserr:amplitude-wrapped"] + [
                                  "life-raises:" + e for e in ("ValueError", "RuntimeError", "TypeError",
                                                               "ZeroDivisionError", "KeyError")] + [
                                  "sym:" + x_label(k, c) for k, c in X_KINDS] + ["sym:PBS", "sym-at-point", "sym-U",
@@ -3331,13 +3460,17 @@ def run(chk: core.Check):
         process(chk, pool, "life", [gen_life_case(rng) for _ in range(chk.pick(300, 5000))], seen)
         # Expression objects and the symbolic branch of every leaf: deterministic sweep, then random histories
         process(chk, pool, "pbs", [{}], seen)
+        process(chk, pool, "pserr", [gen_pserr_case(rng) for _ in range(chk.pick(60, 1000))], seen)
         process(chk, pool, "xsess", xsess_sweep_cases(), seen)
         process(chk, pool, "xsess", [gen_xsess_case(rng, deep=(i % 6 == 0)) for i in range(chk.pick(200, 3000))], seen)
     chk.exhaustive = False
     chk.extra["exhaustive_parts"] = ["every bound + k*span, |k| <= 100, of the three declared intervals",
                                      "every permutation of <= 5 modes",
                                      "every operator form (p*k, k*p, p+k, k+p, p-k, k-p, p/k) on each of the "
-                                     f"{len(LONG_POOL)} listed long operands, p**x on {len(POW_POOL)} exponents"]
+                                     f"{len(LONG_POOL)} listed long operands, p**x on {len(POW_POOL)} exponents",
+                                     "symbolic branch: every leaf kind (BS.Rx, BS.Ry, BS.H, PS, WP, HWP, QWP, PR) x every "
+                                     "kind of slot content (number, free / valued / fixed parameter, Expression free / "
+                                     "valued / overridden, sympy default), all slots at once and each slot in turn; PBS"]
 
 
 def replay(chk, data):
